@@ -339,3 +339,7 @@ func stream2s(b []byte) string {
 func TestC01(t *testing.T) {
 	stats.Run(t, stats.Prop[C01Case]{ID: "C01", Rule: ruleC01, Gen: genC01, Check: checkC01})
 }
+
+func FuzzC01Rapid(f *testing.F) {
+	stats.Fuzz(f, stats.Prop[C01Case]{ID: "C01", Rule: ruleC01, Gen: genC01, Check: checkC01})
+}
